@@ -17,12 +17,13 @@ na_file = os.path.join(HERE, "tools", "not_applicable.json")
 if os.path.exists(na_file):
     NA_REASONS = json.load(open(na_file))
 
+CLAIMED = set(open(os.path.join(HERE, "tools", "claimed.txt")).read().split())
 checks = []
 claimed = set()
 for f in sorted(glob.glob(os.path.join(HERE, "props", "c[0-9]*_*.py"))):
     mod = importlib.import_module("props." + os.path.basename(f)[:-3])
     pid = mod.PROPERTY_ID
-    if getattr(mod, "DISABLED", False):
+    if getattr(mod, "DISABLED", False) or pid not in CLAIMED:
         continue
     claimed.add(pid)
     checks.append(dict(
